@@ -360,8 +360,14 @@ fn cli_job(ctx: &Ctx, job: usize, iters: u64) -> Stats {
     let mut rng = Rng::stream(ctx.seed, "C07.cli", job as u64);
     let mut cfg = GenCfg::simple(&gen::PLAIN_NAMES[..5], 4);
     cfg.allow_fix = false;
-    for _ in 0..iters {
-        let ast = gen::gen_ast(&mut rng, &cfg);
+    // every third formula may contain fixed points (convergent ones are judged)
+    let mut cfg_fix = GenCfg::simple(&gen::PLAIN_NAMES[..4], 4);
+    cfg_fix.allow_fix = true;
+    cfg_fix.max_fix_depth = 1;
+    cfg_fix.binder_weight = 30;
+    cfg_fix.max_list = 3;
+    for it in 0..iters {
+        let ast = gen::gen_ast(&mut rng, if it % 3 == 2 { &cfg_fix } else { &cfg });
         // (every other text with alias spellings, comments glued to their neighbours, stray separators)
         let style = if rng.chance(1, 2) { Style::Fancy } else { Style::Plain };
         let text = gen::render(&ast, &mut rng, style);
